@@ -2105,6 +2105,8 @@ isal_read_zlib_header(struct inflate_state *state, struct isal_zlib_header *zlib
 
                 if (zlib_hdr->dict_flag) {
                 case ISAL_ZLIB_DICT:
+                        /* Resuming here means FDICT was seen; the caller (isal_inflate) may pass a fresh header struct */
+                        zlib_hdr->dict_flag = 1;
                         ret = fixed_size_read(state, &next_in, ZLIB_DICT_LEN);
                         if (ret) {
                                 state->block_state = ISAL_ZLIB_DICT;
